@@ -57,7 +57,7 @@ var sharedTypes = map[string]bool{
 var skipPkgs = []string{"Havoc/pkg/profile/yaotl", "Havoc/pkg/common/certs", "Havoc/verifsim"}
 
 type stats struct {
-	goStmts, syncTypes, chanOps, timeCalls, randImports, netCalls, exits, mapRanges, loops, accesses, rmw int
+	goStmts, syncTypes, chanOps, timeCalls, randImports, netCalls, exits, mapRanges, loops, accesses, rmw, aliases, aliasCalls int
 	mapRangeSites                                                                                       []string
 	rangeCalls                                                                                          []string
 }
@@ -142,8 +142,8 @@ func main() {
 		}
 		os.Exit(2)
 	}
-	fmt.Printf("verifinst: go=%d sync=%d chan=%d time=%d rand=%d net=%d exit=%d maprange=%d loops=%d access=%d rmw=%d\n",
-		st.goStmts, st.syncTypes, st.chanOps, st.timeCalls, st.randImports, st.netCalls, st.exits, st.mapRanges, st.loops, st.accesses, st.rmw)
+	fmt.Printf("verifinst: go=%d sync=%d chan=%d time=%d rand=%d net=%d exit=%d maprange=%d loops=%d access=%d rmw=%d aliases=%d aliascalls=%d\n",
+		st.goStmts, st.syncTypes, st.chanOps, st.timeCalls, st.randImports, st.netCalls, st.exits, st.mapRanges, st.loops, st.accesses, st.rmw, st.aliases, st.aliasCalls)
 	for _, s := range st.mapRangeSites {
 		fmt.Println("verifinst: map range at", s)
 	}
@@ -183,6 +183,9 @@ type inst struct {
 	fname string
 	tmpN  int
 	needSimrt bool
+	// R13: locals that hold a reference (interface, pointer to a foreign type) copied out of a
+	// field of a shared struct: the object behind them is as shared as the field
+	aliases map[types.Object]bool
 }
 
 func (in *inst) site(n ast.Node) string {
@@ -237,6 +240,7 @@ func (in *inst) run() {
 		}
 	}
 
+	in.findAliases()
 	astutil.Apply(in.file, nil, in.post)
 
 	if in.needSimrt {
@@ -663,6 +667,65 @@ func (in *inst) sharedSel(e ast.Expr) bool {
 	return false
 }
 
+// findAliases (R13): `h := s.hasher`, `conn := client.Conn` ... make the local a second name of an
+// object every goroutine can reach; method calls through it are yield points like the field itself.
+func (in *inst) findAliases() {
+	in.aliases = map[types.Object]bool{}
+	note := func(lhs, rhs ast.Expr) {
+		id, ok := lhs.(*ast.Ident)
+		if !ok || id.Name == "_" {
+			return
+		}
+		for {
+			p, ok := rhs.(*ast.ParenExpr)
+			if !ok {
+				break
+			}
+			rhs = p.X
+		}
+		if !in.sharedSel(rhs) {
+			return
+		}
+		t := in.info.TypeOf(rhs)
+		if t == nil {
+			return
+		}
+		foreign := false
+		switch u := t.Underlying().(type) {
+		case *types.Interface:
+			foreign = u.NumMethods() > 0 && t.String() != "error"
+		case *types.Pointer:
+			if n, ok := namedOf(u.Elem()); ok && !strings.HasPrefix(n, "Havoc/") {
+				foreign = true
+			}
+		}
+		if !foreign {
+			return
+		}
+		if obj := in.info.ObjectOf(id); obj != nil && obj.Parent() != in.pkg.Types.Scope() {
+			in.aliases[obj] = true
+			st.aliases++
+		}
+	}
+	ast.Inspect(in.file, func(n ast.Node) bool {
+		switch x := n.(type) {
+		case *ast.AssignStmt:
+			if len(x.Lhs) == len(x.Rhs) {
+				for i := range x.Lhs {
+					note(x.Lhs[i], x.Rhs[i])
+				}
+			}
+		case *ast.ValueSpec:
+			if len(x.Names) == len(x.Values) {
+				for i := range x.Names {
+					note(x.Names[i], x.Values[i])
+				}
+			}
+		}
+		return true
+	})
+}
+
 // headerExprs returns the expressions evaluated by the statement itself (not by nested statements).
 func headerExprs(s ast.Stmt) []ast.Node {
 	switch n := s.(type) {
@@ -699,6 +762,15 @@ func (in *inst) touchesShared(s ast.Stmt) (read bool) {
 				if in.sharedSel(x) {
 					read = true
 					return false
+				}
+			case *ast.CallExpr:
+				// R13: a method call through an alias of a shared reference
+				if sel, ok := x.Fun.(*ast.SelectorExpr); ok {
+					if id, ok := sel.X.(*ast.Ident); ok && len(in.aliases) > 0 && in.aliases[in.info.ObjectOf(id)] {
+						st.aliasCalls++
+						read = true
+						return false
+					}
 				}
 			}
 			return true
